@@ -62,6 +62,34 @@ Definition slots_per_pkt_ok (d : desc) : bool :=
 Theorem C01_P1_slots_rectangular : forallb slots_per_pkt_ok all_descs = true.
 Proof. vm_compute. reflexivity. Qed.
 
+
+(* T5: the documented discard, on its own. It happens exactly when an MSOP-dispatched packet arrives while the open frame holds
+   MORE than 1,000,000 points: the open frame is dropped as a whole and what is delivered or open afterwards is what this packet
+   contributed; ERRCODE_CLOUDOVERFLOW is reported when more than a second has passed since its last report; otherwise (T5b)
+   nothing of the open frame is lost *)
+Theorem C01_T5_overflow_discards bl tbl v th now host b stale : (ev_is_msop b stale && overflowed v)%bool = true ->
+  let r := process_packet bl tbl v th now host b stale in
+  Z.of_nat (length (v_open v)) > 1000000 /\
+  pts_of (snd r) ++ v_open (fst (fst r)) = (if accepts bl tbl v b then msop_pts v host b else []).
+Proof.
+  intros H. pose proof (process_packet_conservation bl tbl v th now host b stale) as C. cbv zeta in C. rewrite H in C.
+  apply andb_prop in H. destruct H as [Hm Ho]. rewrite Hm in C. cbn [andb app] in C.
+  split; [apply overflow_guard_iff; rewrite <- overflowed_guard; exact Ho | exact C].
+Qed.
+Theorem C01_T5_overflow_reported bl tbl v th now host b : overflowed v = true ->
+  now - (match th_get th ERR_CLOUDOVERFLOW with Some p => p | None => 0 end) > 1 ->
+  In (OErr ERR_CLOUDOVERFLOW) (snd (fst (fst (process_msop bl tbl v th now host b)))).
+Proof. exact (process_msop_overflow_report bl tbl v th now host b). Qed.
+Theorem C01_T5b_otherwise_nothing_lost bl tbl v th now host b stale : (ev_is_msop b stale && overflowed v)%bool = false ->
+  let r := process_packet bl tbl v th now host b stale in
+  pts_of (snd r) ++ v_open (fst (fst r)) = v_open v ++ (if (ev_is_msop b stale && accepts bl tbl v b)%bool then msop_pts v host b else []).
+Proof.
+  intros H. pose proof (process_packet_conservation bl tbl v th now host b stale) as C. cbv zeta in C. rewrite H in C. exact C.
+Qed.
+Theorem C01_T5_threshold n : overflow_guard n = true <-> n > 1000000.
+Proof. exact (overflow_guard_iff n). Qed.
+Print Assumptions C01_T5_overflow_discards.
+
 (* non-vacuity: a concrete RS32 session satisfies no_overflow and produces clouds *)
 Example C01_nonvacuous :
   let d := desc_RS32 in
